@@ -310,8 +310,11 @@ def directed_case(rng, kind, analysis=None, floating=True):
         g.add('AM', perm[:2])
     elif kind == 'K':
         g.kinds = ['K']
-        g.element('L', [perm[0], perm[1]])
-        g.element('L', [perm[2], perm[3]])
+        # two DIFFERENT inductances (a mutual inductance computed from one of them only must show)
+        la, lb = rng.sample([Fraction(1), Fraction(4), Fraction(9), Fraction(1, 4), Fraction(4, 9)], 2)
+        for nn_, val in (([perm[0], perm[1]], la), ([perm[2], perm[3]], lb)):
+            ic = (' %s' % fs(sv(rng))) if (analysis == 'ivp' and rng.random() < 0.7) else ''
+            g.inductors[g.add('L', nn_, val, extra_model=ic, symbolic_ok=False)] = val
         g.element('K')
     elif kind in ('Kic1', 'Kic2'):
         # coupled inductors in an initial-value problem: exactly one of the pair (Kic1) or both (Kic2) with an
@@ -319,8 +322,9 @@ def directed_case(rng, kind, analysis=None, floating=True):
         g.analysis = analysis = 'ivp'
         g.kinds = ['K']
         which = rng.randint(0, 1)
+        vals_ = rng.sample([Fraction(1), Fraction(4), Fraction(9), Fraction(1, 4), Fraction(4, 9)], 2)
         for i_, nn_ in enumerate(([perm[0], perm[1]], [perm[2], perm[3]])):
-            val = rng.choice([Fraction(1), Fraction(4), Fraction(9), Fraction(1, 4), Fraction(4, 9)])
+            val = vals_[i_]
             ic = (' %s' % fs(sv(rng))) if (kind == 'Kic2' or i_ == which) else ''
             g.inductors[g.add('L', nn_, val, extra_model=ic, symbolic_ok=False)] = val
         g.element('K')
